@@ -137,6 +137,20 @@ checks['C14']['text']+=' Every fifth call is preceded by an abandoned attempt wi
 checks['C17']['text']+=' Traffic of the height a sync starts, handed in while the worker is busy and before that sync, must reach that height\'s term.'
 checks['C10']['text']+=' Three heights, so that a member sits out one and is back for the next.'
 
+# ---- round 11 extensions
+checks['C14']['engine']='rt+sim'; checks['C14']['note']=RT_NOTE+" "+SIM_NOTE
+checks['C14']['text']+=' Sim half: in executions with commit-callback failures, node syncs of every height and the split hand-off, the round entered by a sync above height 1 is never started as a first-leader round.'
+checks['C02']['text']+=' A committee request cancelled while pending is not an acceptance; size prefixes that wrap past 2^32 at every aligned offset.'
+checks['C03']['text']+=' A tenth of the headers the adversary signs with its own keys are encoded non-canonically (the repaired defect 282baa4).'
+checks['C04']['text']+=' Validator rejections reported as deadline-flavoured errors under a live context.'
+checks['C05']['text']+=' A node whose log holds a proposal with its block and COMMITs of quorum weight has committed it.'
+checks['C07']['text']+=' In split hand-off worlds the main loop may handle the election timer in the middle of a message handler (between two signature verifications).'
+checks['C12']['text']+=' Thousands of lag-and-sync episodes (messages cached for heights the node then jumps over) with periodic probes of the future cache; transport errors.'
+checks['C15']['text']+=' Long registry sequences with dozens of contexts live at once; the next view\'s context created by an early proposal before the current call parks.'
+checks['C17']['text']+=' Lag-and-sync episodes with periodic probes of the future cache.'
+checks['C18']['text']+=' Votes for the node\'s next turn one rotation later arrive before the same members\' votes for the current one.'
+checks['C20']['text']+=' Parsing must not write behind the content it was given (content inside a larger buffer with a sentinel behind it).'
+
 def cmd(pid, tier):
     return "./check %s --tier %s" % (pid, tier)
 
@@ -151,7 +165,7 @@ manifest = {
   "add_only": True,
  },
  "engines": [
-  {"name": "sim", "path": "sim/", "serves_properties": ["C01","C03","C04","C05","C06","C07","C08","C09","C10","C11","C12","C13","C15","C17","C18"], "kind_free_text": "deterministic single-threaded scheduler over N real WorkerLoops (verif hooks), Byzantine adversary with own keys + replay, online monitors over the SPI event log"},
+  {"name": "sim", "path": "sim/", "serves_properties": ["C01","C03","C04","C05","C06","C07","C08","C09","C10","C11","C12","C13","C14","C15","C17","C18"], "kind_free_text": "deterministic single-threaded scheduler over N real WorkerLoops (verif hooks), Byzantine adversary with own keys + replay, online monitors over the SPI event log"},
   {"name": "rt", "path": "rt/", "serves_properties": ["C02","C03","C05","C07","C08","C11","C12","C13","C14","C15","C16","C17","C19"], "kind_free_text": "real MainLoop + WorkerLoop + timer trigger of 1..5 nodes in child processes built with -race: router with loss/dup/delay, parking SPI fakes, log-keyed delay injection, API driver, main-loop barrier and worker-iteration witness"},
   {"name": "unit", "path": "unit/", "serves_properties": ["C02","C06","C15","C17","C18","C19","C20"], "kind_free_text": "real function / component run on generated and enumerated inputs next to an independent reference oracle (math/big, sequential models, semantic re-parse)"},
  ],
